@@ -166,8 +166,10 @@ func (column Column) Write(ctx context.Context, writer *buffer.Writer, format Fo
 	// NOTE: The length of the column value, in bytes (this count does
 	// not include itself). Can be zero. As a special case, -1 indicates a NULL
 	// column value. No value bytes follow in the NULL case.
+	// NOTE: the encoder returns a nil buffer for every value representing
+	// NULL: an untyped nil, a nil pointer or an invalid nullable value.
 	length := int32(len(bb))
-	if src == nil {
+	if src == nil || bb == nil {
 		length = -1
 	}
 
